@@ -242,6 +242,7 @@ def validate_traces(trace_dir, spec='Trace_Tree', procs=NPROC):
     viols = []
     events = 0
     drift = 0
+    judged = {}
     t = time.time()
     with ThreadPoolExecutor(max_workers=procs) as ex:
         for trace, out, rc in ex.map(_tv_one, [(s, spec) for s in shards]):
@@ -251,13 +252,15 @@ def validate_traces(trace_dir, spec='Trace_Tree', procs=NPROC):
                 tail = open(out, errors='replace').read()[-2500:]
                 raise ToolError('trace validation did not consume %s (rc=%d):\n%s' % (trace, rc, tail))
             events += done[0]['events']
+            for k, n in (done[0].get('judged') or {}).items():
+                judged[k] = judged.get(k, 0) + n
             for tag, r in recs:
                 if tag == 'VIOL':
                     r['trace'] = trace
                     viols.append(r)
                 elif tag == 'DRIFT':
                     drift += 1
-    return viols, {'shards': len(shards), 'events': events, 'tlc_wall_s': round(time.time() - t, 1), 'drift': drift}
+    return viols, {'shards': len(shards), 'events': events, 'tlc_wall_s': round(time.time() - t, 1), 'drift': drift, 'judged': judged}
 
 
 # --------------------------------------------------------------- classification
